@@ -72,7 +72,7 @@ class NoncodingMain(Contract):
         st.known_chrom = e.bool('chromosome_in_genome')
         st.chromseq = SymObj('Chrom8')
         st.gene = SymObj('GeneId8')
-        st.tx = SymObj('TxModel8', transcript=SymObj('Tx8', location=SymObj('Loc8', seqname=SymObj('ChromName8'))), gene_id=st.gene)
+        st.tx = SymObj('TxModel8', transcript=SymObj('Tx8', location=SymObj('Loc8', seqname=SymObj('ChromName8'))), gene_id=st.gene, is_protein_coding=e.bool('tx_is_protein_coding'))
         st.genome = SymObj('Genome8')
         st.n_seq = e.int('n_sequences')
         e.assume(st.n_seq >= 0)
@@ -397,14 +397,17 @@ class NativeBiotypes(NativeCheck):
     props = ('C08',)
     functions = (f'{CMN}:load_inclusion_exclusion_biotypes',)
     bounded_for = 'the two biotype lists through the real function and real files (the symbolic contract cannot follow a helper function added later)'
-    bound = 'inclusion file absent / empty / two lines x exclusion file absent / empty / two lines (9 cases)'
+    bound = 'inclusion file absent / empty / two lines x exclusion file absent / empty / two lines, with and without a line break after the last entry (17 cases)'
     quick_budget_s = 20
     thorough_budget_s = 20
 
     def cases(self, rng, tier):
         for inc in (None, [], ['lncRNA', 'miRNA']):
             for exc in (None, [], ['snoRNA', 'TEC']):
-                yield dict(inclusion=inc, exclusion=exc)
+                for nl in (True, False):
+                    if not nl and not (inc or exc):
+                        continue
+                    yield dict(inclusion=inc, exclusion=exc, trailing_newline=nl)
 
     def check(self, inp):
         import argparse, tempfile, os, shutil
@@ -417,7 +420,7 @@ class NativeBiotypes(NativeCheck):
                 if inp[nm] is not None:
                     paths[nm] = os.path.join(d, nm + '.txt')
                     with open(paths[nm], 'w') as fh:
-                        fh.write(''.join(x + '\n' for x in inp[nm]))
+                        fh.write(''.join(x + '\n' for x in inp[nm]) if inp.get('trailing_newline', True) else '\n'.join(inp[nm]))
             args = argparse.Namespace(inclusion_biotypes=paths.get('inclusion'), exclusion_biotypes=paths.get('exclusion'))
             got_inc, got_exc = common.load_inclusion_exclusion_biotypes(args)
             default = [l.rstrip() for l in open(pkg_resources.resource_filename('moPepGen', 'data/gencode_hs_exclusion_list.txt'))]
